@@ -9,6 +9,7 @@ import (
 	"context"
 	"reflect"
 
+	metav1 "k8s.io/apimachinery/pkg/apis/meta/v1"
 	"k8s.io/apimachinery/pkg/runtime"
 	"k8s.io/apimachinery/pkg/runtime/schema"
 	"k8s.io/utils/ptr"
@@ -18,6 +19,7 @@ import (
 	"github.com/crossplane/crossplane-runtime/pkg/resource/unstructured/composite"
 
 	v1 "github.com/crossplane/crossplane/apis/apiextensions/v1"
+	"github.com/crossplane/crossplane/internal/xcrd"
 	zz "github.com/crossplane/crossplane/internal/zzverif"
 )
 
@@ -160,4 +162,52 @@ func HarnessC10TransformSource() {
 	err := Apply(p, xr, cd)
 	zz.Assert("patch-never-modifies-its-source", reflect.DeepEqual(before, src))
 	zz.Observe("err", err != nil)
+}
+
+// HarnessC10Metadata: the metadata of a composed resource is rendered only
+// for an XR that carries a non-empty name-prefix label (absent or empty is an
+// error, so the resource is neither named nor applied); the rendered resource
+// gets that prefix, the XR's labels and the XR as its controller, and a
+// resource that another owner controls is refused.
+//
+//gosym:harness
+//gosym:cover rendered no-prefix foreign-controller
+func HarnessC10Metadata() {
+	xr := composite.New(composite.WithGroupVersionKind(schema.GroupVersionKind{Group: "example.org", Version: "v1", Kind: "XR"}))
+	xr.SetName("xr")
+	xr.SetUID("uid-xr")
+	prefix := zz.Str("xr.namePrefixLabel")
+	switch zz.Choose("xr.namePrefixLabel.state", 3) { // absent, present (any value, the empty one included), present with other labels
+	case 1:
+		xr.SetLabels(map[string]string{xcrd.LabelKeyNamePrefixForComposed: prefix})
+	case 2:
+		xr.SetLabels(map[string]string{xcrd.LabelKeyNamePrefixForComposed: prefix, xcrd.LabelKeyClaimName: "cm", xcrd.LabelKeyClaimNamespace: "team"})
+	}
+	cd := composed.New()
+	cd.SetAPIVersion("example.org/v1")
+	cd.SetKind("Composed")
+	foreign := zz.Bool("composed.controlledByAnotherOwner")
+	if foreign {
+		cd.SetOwnerReferences([]metav1.OwnerReference{{APIVersion: "example.org/v1", Kind: "Other", Name: "other", UID: "uid-other", Controller: ptr.To(true)}})
+	}
+	err := RenderComposedResourceMetadata(cd, xr, "res-a")
+	has := xr.GetLabels()[xcrd.LabelKeyNamePrefixForComposed]
+	if has == "" {
+		zz.Cover("no-prefix")
+		zz.Assert("no-name-prefix-means-no-metadata", err != nil)
+		zz.Assert("no-generate-name-without-a-prefix", cd.GetGenerateName() == "")
+		return
+	}
+	if foreign {
+		zz.Cover("foreign-controller")
+		zz.Assert("resource-of-another-controller-refused", err != nil)
+		return
+	}
+	zz.Cover("rendered")
+	zz.Assert("render-no-error", err == nil)
+	zz.Assert("generate-name-is-the-prefix", cd.GetGenerateName() == has+"-")
+	zz.Assert("resource-name-annotation-set", GetCompositionResourceName(cd) == "res-a")
+	zz.Assert("prefix-label-copied", cd.GetLabels()[xcrd.LabelKeyNamePrefixForComposed] == has)
+	c := metav1.GetControllerOf(cd)
+	zz.Assert("controlled-by-the-xr", c != nil && c.UID == "uid-xr")
 }
